@@ -269,7 +269,12 @@ End Sound.
 From KV Require Import Base.IEEE.
 Lemma unit_facts_f64 :
   @nadd f64 _ n0 n1 = n1 /\ @nleb f64 _ n1 n1 = true /\ @nsub f64 _ n1 n1 = n0 /\ @nleb f64 _ n1 n0 = false.
-Proof. vm_compute. repeat split; reflexivity. Qed.
+Proof.
+  split; [apply Flocq.IEEE754.BinarySingleNaN.B2SF_inj; vm_compute; reflexivity|].
+  split; [vm_compute; reflexivity|].
+  split; [apply Flocq.IEEE754.BinarySingleNaN.B2SF_inj; vm_compute; reflexivity|].
+  vm_compute; reflexivity.
+Qed.
 Lemma unit_facts_Q :
   @nadd Q _ n0 n1 = n1 /\ @nleb Q _ n1 n1 = true /\ @nsub Q _ n1 n1 = n0 /\ @nleb Q _ n1 n0 = false.
 Proof. vm_compute. repeat split; reflexivity. Qed.
